@@ -33,6 +33,14 @@ Proof.
   split; [reflexivity|]. rewrite join1_comps by exact Rs. reflexivity.
 Qed.
 
+(** ... also when an earlier run into the same output directory left a
+    `latest` behind, dangling (its run directory erased by --clear or by the
+    user) or not: the entry is replaced, so the two statements above apply to
+    the link the new run leaves. *)
+Theorem c12_latest_always_replaced : forall before d, before <> AOther ->
+  refresh_alias before d = Some (ALink (d_target d)).
+Proof. exact alias_always_replaced. Qed.
+
 (** Without a run id (tests and hooks only), absolute output directory. *)
 Theorem c12_latest_resolves_nosub_partial : forall cwd dataDir sub,
   use_sub sub = false -> p_abs dataDir = true ->
